@@ -246,6 +246,11 @@ func (session *PubSession) dispose(err error) error {
 	session.disposeOnce.Do(func() {
 		Log.Infof("[%s] lifecycle dispose gb28181 PubSession. err=%+v", session.UniqueKey(), err)
 		if session.isTcpFlag {
+			// RunLoop (the accept loop of runLoopTcp) returns only once the listener is closed; otherwise
+			// the owner is never told that the session ended and keeps it as the input of its stream
+			if session.listener != nil {
+				_ = session.listener.Close()
+			}
 			if session.tcpConn == nil {
 				retErr = base.ErrSessionNotStarted
 				return
